@@ -381,9 +381,40 @@ func knownPrefixGrowth(c *lp.Ctx) {
 	}
 }
 
+// buildHistory: the size of an index must depend on its keys only, not on what
+// the process built before: a large regular build (not recorded in the script:
+// the model has no process state) precedes small recorded builds.
+func buildHistory(c *lp.Ctx) {
+	var big []string
+	for i := 0; i < 100000; i++ {
+		big = append(big, fmt.Sprintf("%05d", i))
+	}
+	cb := NewCase(c.Rng, gen.KeySet{Keys: big, Class: "history-decimal-100k"}, "-", "none")
+	if lp.Exec(cb.Line()) != "ok" {
+		return
+	}
+	c.Hit("history:100k-decimal-build-first")
+	for _, ks := range [][]string{{"a", "b", "c"}, {"k"}, {"aa", "ab", "b", "ba", "c"}} {
+		cs := NewCase(c.Rng, gen.KeySet{Keys: ks, Class: "after-big-build"}, "-", "none")
+		c.Case(cs.Key(), true)
+		if !build(c, cs) {
+			continue
+		}
+		m := c.Do("trie.marshal")
+		var l int
+		var h string
+		fmt.Sscanf(m, "ok %d %s", &l, &h)
+		if l > 8*len(ks)+256 {
+			c.Violate(lp.Violation{What: "filter-mode size <= 8 bytes per key + 256 (after a large earlier build in the same process)",
+				Script: []string{"(unrecorded) trie.new - none 00000..99999", cs.Line(), "trie.marshal"}, Expected: fmt.Sprintf("<= %d", 8*len(ks)+256), Got: m})
+		}
+	}
+}
+
 // genC17: filter-mode size is linear in the key count and independent of key length.
 func genC17(c *lp.Ctx) {
 	knownPrefixGrowth(c)
+	buildHistory(c)
 	n := c.Pick(150, 800)
 	maxKeys := c.Pick(600, 6000)
 	for it := 0; it < n; it++ {
@@ -391,7 +422,9 @@ func genC17(c *lp.Ctx) {
 		if len(ks.Keys) == 0 {
 			continue
 		}
-		cs := NewCase(c.Rng, ks, "-", "none")
+		// filter mode spelled in every way: no Opt at all, nil pointers, explicit false
+		fflags := []string{"-", "nnnn", "nfff", "tfff", "nnnf", "ffff", "nfnf", "tnfn"}[c.Rng.Intn(8)]
+		cs := NewCase(c.Rng, ks, fflags, "none")
 		c.Case(cs.Key(), true)
 		if !build(c, cs) {
 			continue
@@ -418,7 +451,7 @@ func genC17(c *lp.Ctx) {
 		for i, k := range ks.Keys {
 			pk[i] = pre + k
 		}
-		cs2 := NewCase(c.Rng, gen.KeySet{Keys: pk, Class: ks.Class + "+prefix"}, "-", "none")
+		cs2 := NewCase(c.Rng, gen.KeySet{Keys: pk, Class: ks.Class + "+prefix"}, fflags, "none")
 		line2 := cs2.Line()
 		if a := lp.Exec(line2); a != "ok" {
 			cs2.viol(c, "prefixed key set accepted", line2[:60], "ok", a)
